@@ -3,8 +3,8 @@
 package main
 
 import (
-	"hash/maphash"
 	"fmt"
+	"hash/maphash"
 
 	og "github.com/kisielk/og-rek"
 )
